@@ -399,6 +399,22 @@ impl Model {
                         }
                         Expect::Ddl
                     }
+                    AlterAction::SetNotNull(c) | AlterAction::DropNotNull(c) => {
+                        let Some(ci) = self.tables[ti].col(c) else { return Expect::Fail("unknown column") };
+                        let set = matches!(action, AlterAction::SetNotNull(_));
+                        if set && self.tables[ti].rows.iter().any(|r| r.versions.iter().any(|v| v.vals[ci].is_null())) {
+                            // NULLs already stored: the model leaves the outcome open
+                            return Expect::Any;
+                        }
+                        if !set && self.tables[ti].uniques.iter().any(|u| u.cols.contains(&ci)) {
+                            return Expect::Any;
+                        }
+                        if apply {
+                            self.tables[ti].cols[ci].not_null = set;
+                            self.txs[tx].writes += 1;
+                        }
+                        Expect::Ddl
+                    }
                     _ => Expect::Any,
                 }
             }
